@@ -20,6 +20,7 @@ Definition dev_op (e : sev) : option (N * dop) :=
   | DCamStop n | DStoStop n => Some (n, OStop)
   | DTrigger n => Some (n, OUse)
   | DGetFrame n _ => Some (n, OUse)
+  | DGetEmpty n => Some (n, OUse)
   | DAppend n true _ => Some (n, OUse)
   | DAppend n false _ => Some (n, OUseFail)      (* the device reported that it left the running state *)
   | _ => None
@@ -226,7 +227,7 @@ Qed.
 
 (* ---- what one event of a stream does to that stream's two device slots *)
 Definition is_cam_op (e : sev) : bool :=
-  match e with DOpenCam _ | DCloseCam _ | DSetCam _ | DCamStart _ _ _ | DCamStop _ | DTrigger _ | DGetFrame _ _ => true | _ => false end.
+  match e with DOpenCam _ | DCloseCam _ | DSetCam _ | DCamStart _ _ _ | DCamStop _ | DTrigger _ | DGetFrame _ _ | DGetEmpty _ => true | _ => false end.
 
 Definition cam_slot (s : stream) : slot := (cam s, cam_st s).
 Definition sto_slot (s : stream) : slot := (sto s, sto_st s).
